@@ -166,7 +166,7 @@ func genH(t *rapid.T) H10 {
 }
 
 func genC10(t *rapid.T) CaseC10 {
-	cfg := gkit.GenCfg{MaxNodes: 6, Depth: 1, Cycles: true, NoFailMix: true, Paradigms: true, SubModes: []string{"pregel", "dag", "workflow"}}
+	cfg := gkit.GenCfg{MaxNodes: 6, Depth: 1, Cycles: true, NoFailMix: true, Paradigms: true, State: true, SubModes: []string{"pregel", "dag", "workflow"}}
 	mode := []string{"pregel", "pregel", "dag", "workflow"}[rapid.IntRange(0, 3).Draw(t, "mode")]
 	c := CaseC10{Spec: gkit.GenTop(t, mode, cfg)}
 	c.Input = gkit.GenInput(t, c.Spec.In)
